@@ -32,7 +32,7 @@ func init() {
 	Register(&Scenario{Prop: "C20", Name: "oneonone-pair", Run: scenC20OneOnOne, Weight: 1,
 		Rule: "two real oneonone adapters over the simulated pubsub (delivery delayed and interleaved by the kernel, no loss); both sides Connect, then 2-12 Sends from both sides interleaved with kernel steps, payload sizes from {0,1,100,64 KiB}; oracle: both ends subscribed to one and the same channel topic; each side's adapter emits exactly the payloads the other side sent (multiset, byte-identical), attributed to the other peer, and none of its own; non-trivial = both sides sent >=1 payload"})
 	Register(&Scenario{Prop: "C20", Name: "directchannel-streams", Run: scenC20Direct, Weight: 1,
-		Rule: "two real directchannel adapters over the stub libp2p host; 3-10 Sends with payload sizes from {0,1,100,64 KiB,1 MiB,4 MiB-1,4 MiB,4 MiB+1} travelling in kernel-chosen chunks (1 byte .. whole frame, so short reads happen), streams interleaved; faults drawn per stream: none, reset mid-frame, truncation mid-frame; plus hostile raw frames on the victim's handler (length prefix 0, exact, larger than the body, 4 MiB+1, 2^32, 2^63, 2^64-1, unterminated varint, empty stream); oracle: a frame within the limit that arrived completely produces exactly one event with the sender as peer and identical bytes; oversized, reset, truncated and malformed frames produce no event and never crash the process; frames sent afterwards are delivered; non-trivial = >=1 complete frame after >=1 refused or broken one; one step in five (outside floods) is two Send calls on the same channel at the same time, each frame having to arrive as it was sent"})
+		Rule: "two real directchannel adapters over the stub libp2p host; 3-10 Sends with payload sizes from {0,1,100,64 KiB,1 MiB,4 MiB-1,4 MiB,4 MiB+1} travelling in kernel-chosen chunks (1 byte .. whole frame, so short reads happen), streams interleaved; faults drawn per stream: none, reset mid-frame, truncation mid-frame, all bytes delivered but the sender's Close reports an error; plus hostile raw frames on the victim's handler (length prefix 0, exact, larger than the body, 4 MiB+1, 2^32, 2^63, 2^64-1, unterminated varint, empty stream); oracle: a frame within the limit that arrived completely produces exactly one event with the sender as peer and identical bytes; oversized, reset, truncated and malformed frames produce no event and never crash the process; frames sent afterwards are delivered; non-trivial = >=1 complete frame after >=1 refused or broken one; one step in five (outside floods) is two Send calls on the same channel at the same time, each frame having to arrive as it was sent"})
 }
 
 // ---------------- pubsubcoreapi over a scripted API ----------------
@@ -666,6 +666,13 @@ func scenDirect(k *K, prop string, forceFlood bool) {
 		if (k.C.Chance(1, 4) || (flood && i < n-3)) && len(pl) > 0 {
 			fault = []string{"reset", "truncate"}[k.C.Intn(2)]
 		}
+		if fault == "" && k.C.Chance(1, 5) {
+			// the connection is lost once the receiver has everything and before the sender's
+			// Close returns: the frame counts as delivered, once
+			k.W.mu.Lock()
+			k.W.StreamCloseErrNext = 1
+			k.W.mu.Unlock()
+		}
 		before := len(k.W.streams)
 		op := k.Do(from, fmt.Sprintf("send len=%d fault=%s", len(pl), fault), 3, func() (interface{}, error) {
 			return nil, chans[from].Send(ctx, nodes[1-from].ID, pl)
@@ -674,9 +681,10 @@ func scenDirect(k *K, prop string, forceFlood bool) {
 			k.Failf(prop+"/direct/send-error", "Send of %d bytes failed: done=%v err=%v", len(pl), op.Done, op.Err)
 		}
 		k.W.mu.Lock()
+		k.W.StreamCloseErrNext = 0
 		var st *SimStream
 		if len(k.W.streams) > before {
-			st = k.W.streams[len(k.W.streams)-1]
+			st = k.W.streams[before] // the first stream the call opened carries the frame
 		}
 		k.W.mu.Unlock()
 		fr := &frame{to: 1 - from, payload: pl, fault: fault, s: st}
